@@ -5,6 +5,10 @@
   every run; the API methods are the hand-written model (tied by correspondence).
 -/
 import H2.Proofs.Closed
+import H2.Proofs.ClosedSent
+import H2.Proofs.ClosedRecv
+import H2.Proofs.ClosedForever
+import H2.Proofs.History
 
 namespace H2.C19
 open H2 H2.Gen H2.Conn
@@ -70,6 +74,239 @@ theorem C19_goaway_discards (c : Conn) (last code : Int) (extra : Bytes) (fe : F
   injection h1 with h1
   subst h2; subst h1
   exact ⟨rfl, rfl, rfl⟩
+
+/-! ### closed is for ever, and quiet for ever -/
+
+theorem C19_calls_keep_closed : CallsKeep ST where
+  initiate := fun c h => pz_apiInitiate c h
+  upgrade := fun hdr c h => pz_apiUpgrade hdr c h
+  sendHeaders := fun sid hs es pw pd pe c h => pz_apiSendHeaders sid hs es pw pd pe c h
+  pushStream := fun sid p hs c h => pz_apiPushStream sid p hs c h
+  sendData := fun sid d es pad c h => pz_apiSendData sid d es pad c h
+  endStream := fun sid c h => pz_apiEndStream sid c h
+  incrementWindow := fun i sid c h => pz_apiIncrementWindow i sid c h
+  ping := fun d c h => pz_apiPing d c h
+  resetStream := fun sid code c h => pz_apiResetStream sid code c h
+  closeConnection := fun code extra last c h => pz_apiCloseConnection code extra last c h
+  updateSettings := fun items c h => pz_apiUpdateSettings items c h
+  altsvc := fun f o sid c h => pz_apiAltsvc f o sid c h
+  prioritize := fun sid w d e c h => pz_apiPrioritize sid w d e c h
+  ackData := fun size sid c h => pz_apiAckData size sid c h
+  dataToSend := fun n c h => pz_apiDataToSend n c h
+  clearOut := fun c h => pz_apiClearOut c h
+  localWindow := fun sid c h => pz_apiLocalWindow sid c h
+  remoteWindow := fun sid c h => pz_apiRemoteWindow sid c h
+  nextStreamId := fun c h => pz_apiNextStreamId c h
+  openOut := fun c h => pz_apiOpenOut c h
+  openIn := fun c h => pz_apiOpenIn c h
+
+/-- **CLOSED is for ever**: whatever is called and whatever is received afterwards -/
+theorem C19_closed_forever (c : Conn) (op : Op) (hc : c.cstate = .CLOSED) : (step c op).1.cstate = .CLOSED := by
+  by_cases hr : ∃ d, op = .recv d
+  · obtain ⟨d, rfl⟩ := hr
+    exact recv_keeps (P := ST) receiveData_st c d hc
+  · exact call_keeps C19_calls_keep_closed c op (fun d hd => hr ⟨d, hd⟩) hc
+
+/-- **`receive_data` on a closed connection**: whatever the bytes — frames for live, reset, forgotten or never-used
+    streams, naked CONTINUATION frames, garbage — at most one frame is written, and it is a GOAWAY -/
+theorem C19_recv_quiet (c : Conn) (d : Bytes) (hc : c.cstate = .CLOSED) :
+    (step c (.recv d)).1.sent = c.sent ∨ ∃ last code, (step c (.recv d)).1.sent = c.sent ++ [Frame.goaway last code []] := by
+  have := (receiveData_closed d c hc).2
+  simp only [step]
+  cases hr : receiveData d c with
+  | mk r c' =>
+    rw [hr] at this
+    cases r <;> exact this
+
+/-- frames written from one state to a later one: only GOAWAY frames -/
+def OnlyGoaway (s0 s1 : List Frame) : Prop := ∃ gs, s1 = s0 ++ gs ∧ ∀ f ∈ gs, ∃ l k x, f = Frame.goaway l k x
+
+theorem OnlyGoaway.refl (s : List Frame) : OnlyGoaway s s := ⟨[], by simp, by intro f hf; cases hf⟩
+theorem OnlyGoaway.trans {a b c : List Frame} (h1 : OnlyGoaway a b) (h2 : OnlyGoaway b c) : OnlyGoaway a c := by
+  obtain ⟨g1, e1, p1⟩ := h1
+  obtain ⟨g2, e2, p2⟩ := h2
+  refine ⟨g1 ++ g2, by rw [e2, e1, List.append_assoc], ?_⟩
+  intro f hf
+  rcases List.mem_append.mp hf with h | h
+  · exact p1 f h
+  · exact p2 f h
+
+theorem sent_of_dead {m : CM Unit} {c : Conn} (h : DeadQuietS c.sent m c) : (runU m c).1.sent = c.sent := by
+  have hw := runU_of_wp h
+  cases hres : (runU m c).2.res.isOk with
+  | true => exact (hw.1 hres).elim
+  | false => obtain ⟨_, h'⟩ := hw.2 hres; exact h'.2
+
+theorem sent_of_keeps {α : Type} (f : α → Val) (m : CM α) (c : Conn)
+    (hk : wp m (fun _ c' => c'.sent = c.sent) (fun _ c' => c'.sent = c.sent) c) :
+    (match m c with | (r, c') => (c', ({ res := resOf f r } : Obs))).1.sent = c.sent := by
+  unfold wp at hk
+  cases hm : m c with
+  | mk r c' =>
+    rw [hm] at hk
+    cases r <;> exact hk
+
+theorem og_prepare {Q : Unit → Conn → Prop} {E : Exc → Conn → Prop} (s0 : List Frame) (fs : List Frame) (c : Conn)
+    (h : OnlyGoaway s0 c.sent) (hg : ∀ f ∈ fs, ∃ l k x, f = Frame.goaway l k x)
+    (hq : ∀ c', OnlyGoaway s0 c'.sent → Q () c') (he : ∀ e c', OnlyGoaway s0 c'.sent → E e c') :
+    wp (prepareForSending fs) Q E c := by
+  unfold prepareForSending
+  wps
+  split
+  · exact hq c h
+  · cases fs.mapM Frame.serialize? with
+    | none => exact he _ c h
+    | some bs =>
+      simp only
+      wps
+      have h' : OnlyGoaway s0 (c.sent ++ fs) := h.trans ⟨fs, rfl, hg⟩
+      split
+      · exact hq _ h'
+      · exact he _ _ h'
+
+theorem closeConnection_quiet (code : Int) (extra : Option Bytes) (last : Option Int) (c : Conn) (hc : c.cstate = .CLOSED) :
+    wp (closeConnection code extra last) (fun _ c' => OnlyGoaway c.sent c'.sent) (fun _ c' => OnlyGoaway c.sent c'.sent) c := by
+  unfold closeConnection
+  wps
+  with_reducible apply ite_intro
+  · intro _; exact OnlyGoaway.refl _
+  intro _
+  with_reducible apply ite_intro
+  · intro _; exact OnlyGoaway.refl _
+  intro _
+  with_reducible apply ite_intro
+  · intro _; exact OnlyGoaway.refl _
+  intro _
+  have hci : wp (connInput .SEND_GOAWAY)
+      (fun _ c' => c'.sent = c.sent ∧ c'.highestIn = c.highestIn) (fun _ c' => c'.sent = c.sent) c := by
+    unfold wp connInput
+    cases connTable c.cstate .SEND_GOAWAY with
+    | none => rfl
+    | some t => exact ⟨rfl, rfl⟩
+  refine wp_mono hci ?_ (fun _ _ h' => h' ▸ OnlyGoaway.refl _)
+  intro _ c1 h1
+  wps
+  apply og_prepare c.sent _ c1 (h1.1 ▸ OnlyGoaway.refl _)
+  · intro f hf; simp only [List.mem_singleton] at hf; exact ⟨_, _, _, hf⟩
+  · intro c2 h2; exact h2
+  · intro _ c2 h2; exact h2
+
+theorem og_of_runU {m : CM Unit} {c : Conn}
+    (h : wp m (fun _ c' => OnlyGoaway c.sent c'.sent) (fun _ c' => OnlyGoaway c.sent c'.sent) c) :
+    OnlyGoaway c.sent (runU m c).1.sent := by
+  have := runU_of_wp h
+  cases hres : (runU m c).2.res.isOk with
+  | true => exact this.1 hres
+  | false => obtain ⟨_, h'⟩ := this.2 hres; exact h'
+
+theorem sent_of_runI (m : CM Int) (c : Conn)
+    (hk : wp m (fun _ c' => c'.sent = c.sent) (fun _ c' => c'.sent = c.sent) c) : (runI m c).1.sent = c.sent :=
+  sent_of_keeps _ m c hk
+
+/-- one step from a closed state writes only GOAWAY frames -/
+theorem C19_step_quiet (c : Conn) (op : Op) (hc : c.cstate = .CLOSED) : OnlyGoaway c.sent (step c op).1.sent := by
+  have hq : CQS c.sent c := ⟨hc, rfl⟩
+  have same : ∀ {s : List Frame}, s = c.sent → OnlyGoaway c.sent s := fun h => h ▸ OnlyGoaway.refl _
+  have hps : c.sent = c.sent := rfl
+  cases op with
+  | recv d =>
+    rcases C19_recv_quiet c d hc with h | ⟨l, k, h⟩
+    · exact same h
+    · exact ⟨[Frame.goaway l k []], h, by intro f hf; simp only [List.mem_singleton] at hf; exact ⟨l, k, [], hf⟩⟩
+  | sendHeaders sid hs es pw pd pe =>
+    show OnlyGoaway c.sent (runU (sendHeaders sid hs es pw pd pe) c).1.sent
+    exact same (sent_of_dead (sendHeaders_closedS _ _ _ _ _ _ _ c hq))
+  | sendData sid d es pad =>
+    show OnlyGoaway c.sent (runU (sendData sid d es pad) c).1.sent
+    exact same (sent_of_dead (sendData_closedS _ _ _ _ _ c hq))
+  | endStream sid =>
+    show OnlyGoaway c.sent (runU (endStream sid) c).1.sent
+    exact same (sent_of_dead (endStream_closedS _ _ c hq))
+  | incrementWindow i sid =>
+    show OnlyGoaway c.sent (runU (incrementFlowControlWindow i sid) c).1.sent
+    exact same (sent_of_dead (incrementWindow_closedS _ _ _ c hq))
+  | pushStream a b hs =>
+    show OnlyGoaway c.sent (runU (pushStream a b hs) c).1.sent
+    exact same (sent_of_dead (pushStream_closedS _ _ _ _ c hq))
+  | ping d =>
+    show OnlyGoaway c.sent (runU (ping d) c).1.sent
+    exact same (sent_of_dead (ping_closedS _ _ c hq))
+  | resetStream sid code =>
+    show OnlyGoaway c.sent (runU (resetStream sid code) c).1.sent
+    exact same (sent_of_dead (resetStream_closedS _ _ _ c hq))
+  | updateSettings items =>
+    show OnlyGoaway c.sent (runU (updateSettings items) c).1.sent
+    exact same (sent_of_dead (updateSettings_closedS _ _ c hq))
+  | altsvc f o sid =>
+    show OnlyGoaway c.sent (runU (advertiseAlternativeService f o sid) c).1.sent
+    exact same (sent_of_dead (altsvc_closedS _ _ _ _ c hq))
+  | prioritize sid w d e =>
+    show OnlyGoaway c.sent (runU (prioritize sid w d e) c).1.sent
+    exact same (sent_of_dead (prioritize_closedS _ _ _ _ _ c hq))
+  | ackData size sid =>
+    have h := runU_of_wp (ackData_closedS c.sent size sid c hq)
+    refine same ?_
+    show (runU (acknowledgeReceivedData size sid) c).1.sent = c.sent
+    cases hres : (runU (acknowledgeReceivedData size sid) c).2.res.isOk with
+    | true => rw [h.1 hres]
+    | false => obtain ⟨_, h'⟩ := h.2 hres; rw [h']
+  | initiateConnection =>
+    refine same ?_
+    show (runU initiateConnection c).1.sent = c.sent
+    have hd : DeadQuietS c.sent initiateConnection c := by
+      simp only [initiateConnection, settingsFrameOfLocal]; closeds_auto
+    exact sent_of_dead hd
+  | initiateUpgrade hdr =>
+    have hd : wp (initiateUpgradeConnection (fun items => do let _ ← receiveSettingsFrame false items; pure ()) hdr)
+        (fun _ _ => False) (fun _ c' => CQS c.sent c') c := by
+      simp only [initiateUpgradeConnection, receiveSettingsFrame]; closeds_auto
+    exact same (sent_of_keeps _ _ c (wp_mono hd (fun _ _ hf => hf.elim) (fun _ _ h' => h'.2)))
+  | closeConnection code extra last =>
+    show OnlyGoaway c.sent (runU (closeConnection code extra last) c).1.sent
+    exact og_of_runU (closeConnection_quiet code extra last c hc)
+  | dataToSend n =>
+    have hk : wp (dataToSend n) (fun _ c' => c'.sent = c.sent) (fun _ c' => c'.sent = c.sent) c := by
+      unfold dataToSend; wps; split <;> (try wps) <;> first | rfl | trivial
+    exact same (sent_of_keeps _ _ c hk)
+  | clearOut =>
+    refine same ?_
+    show (runU clearOutboundDataBuffer c).1.sent = c.sent
+    rfl
+  | query q =>
+    refine same ?_
+    cases q with
+    | localWindow sid =>
+      refine sent_of_runI _ c ?_
+      unfold localFlowControlWindow; ps_auto
+    | remoteWindow sid =>
+      refine sent_of_runI _ c ?_
+      unfold remoteFlowControlWindow; ps_auto
+    | nextStreamId =>
+      have hk : wp getNextAvailableStreamId (fun _ c' => c'.sent = c.sent) (fun _ c' => c'.sent = c.sent) c := by
+        unfold getNextAvailableStreamId; ps_auto
+      exact sent_of_runI _ c hk
+    | openOut =>
+      refine sent_of_runI _ c ?_
+      unfold openOutboundStreams; ps_auto
+    | openIn =>
+      refine sent_of_runI _ c ?_
+      unfold openInboundStreams; ps_auto
+    | inboundWindow =>
+      refine sent_of_runI (do let c ← getS; pure c.inWM.current_window_size) c ?_
+      wps
+
+/-- **quiet for ever**: from a closed connection, whatever sequence of calls and deliveries follows, every frame that
+    is written is a GOAWAY -/
+theorem C19_quiet_for_ever (c : Conn) (ops : List Op) (hc : c.cstate = .CLOSED) :
+    (run c ops).1.cstate = .CLOSED ∧ OnlyGoaway c.sent (run c ops).1.sent := by
+  induction ops generalizing c with
+  | nil => exact ⟨hc, OnlyGoaway.refl _⟩
+  | cons op ops ih =>
+    have h1 := C19_closed_forever c op hc
+    have h2 := C19_step_quiet c op hc
+    have := ih (step c op).1 h1
+    simp only [run]
+    exact ⟨this.1, h2.trans this.2⟩
 
 /-- non-vacuity: a closed connection with pending output exists and `ping` on it is refused -/
 example : let c := { Conn.init { client := true } with cstate := .CLOSED, out := [1, 2, 3] }
